@@ -335,3 +335,91 @@ pub proof fn theorem_checksum_rebuild(x: Seq<char>)
     theorem_checksum_text_fixpoint(es, m);
     lemma_listing_text_nonempty(es);
 }
+
+// ---- C04: the stored checksum text is free of ASCII upper-case letters ----
+pub proof fn lemma_lower_seq_len(s: Seq<char>)
+    ensures lower_seq(s).len() >= s.len()
+    decreases s.len()
+{
+    if s.len() > 0 { lemma_lower_seq_len(s.drop_last()); axiom_lower_nonempty(s.last()); }
+}
+
+/// a text that lower-casing leaves alone contains no ASCII upper-case letter
+pub proof fn lemma_lower_fixed_no_upper(k: Seq<char>)
+    requires lower_seq(k) == k
+    ensures forall|i: int| 0 <= i < k.len() ==> !ascii_upper_c(#[trigger] k[i])
+    decreases k.len()
+{
+    broadcast use axiom_ascii_to_lower;
+    if k.len() > 0 {
+        let w = k.drop_last();
+        let c = k.last();
+        lemma_lower_seq_len(w);
+        axiom_lower_nonempty(c);
+        let lw = lower_seq(w);
+        let lc = u_to_lower(c);
+        assert(lower_seq(k) == lw + lc);
+        assert(lw.len() == w.len() && lc.len() == 1);
+        assert(lw =~= k.subrange(0, w.len() as int)) by { assert forall|i: int| 0 <= i < lw.len() implies lw[i] == k[i] by { assert((lw + lc)[i] == lw[i]); } }
+        assert(k.subrange(0, w.len() as int) =~= w);
+        lemma_lower_fixed_no_upper(w);
+        assert((lw + lc)[w.len() as int] == lc[0]);
+        assert(lc[0] == c);
+        if ascii_upper_c(c) { assert(is_ascii_c(c)); assert(u_to_lower(c) == seq![ascii_lower(c)]); assert(false); }
+        assert forall|i: int| 0 <= i < k.len() implies !ascii_upper_c(#[trigger] k[i]) by { if i < w.len() { assert(k[i] == w[i]); } }
+    }
+}
+
+pub open spec fn no_ascii_upper(s: Seq<char>) -> bool { forall|i: int| 0 <= i < s.len() ==> !ascii_upper_c(#[trigger] s[i]) }
+
+pub proof fn lemma_no_upper_concat(a: Seq<char>, b: Seq<char>)
+    requires no_ascii_upper(a), no_ascii_upper(b)
+    ensures no_ascii_upper(a + b)
+{
+    assert forall|i: int| 0 <= i < (a + b).len() implies !ascii_upper_c(#[trigger] (a + b)[i]) by {
+        if i < a.len() { assert((a + b)[i] == a[i]); } else { assert((a + b)[i] == b[i - a.len()]); }
+    }
+}
+
+pub proof fn lemma_listing_text_no_upper(es: VS)
+    requires keys_fixed(es), all_hex_ok(es)
+    ensures no_ascii_upper(listing_text(es))
+    decreases es.len()
+{
+    if es.len() > 0 {
+        let last = es.last();
+        lemma_lower_fixed_no_upper(last.0);
+        lemma_hex_lower(last.1);
+        let lv = lower_ascii_seq(last.1);
+        assert(no_ascii_upper(lv)) by { assert forall|i: int| 0 <= i < lv.len() implies !ascii_upper_c(#[trigger] lv[i]) by { assert(ascii_hex_c(last.1[i])); } }
+        assert(no_ascii_upper(seq![':'])); assert(no_ascii_upper(seq![',']));
+        lemma_no_upper_concat(last.0, seq![':']);
+        lemma_no_upper_concat(last.0 + seq![':'], lv);
+        if es.len() > 1 {
+            let w = es.drop_last();
+            assert(keys_fixed(w)) by { assert forall|i: int| 0 <= i < w.len() implies lower_seq(#[trigger] w[i].0) == w[i].0 && !has_char(w[i].0, ',') by { assert(w[i] == es[i]); } }
+            assert(all_hex_ok(w)) by { assert forall|i: int| 0 <= i < w.len() implies hex_ok(#[trigger] w[i].1) by { assert(w[i] == es[i]); } }
+            lemma_listing_text_no_upper(w);
+            lemma_no_upper_concat(listing_text(w), seq![',']);
+            lemma_no_upper_concat(listing_text(w) + seq![','], entry_text(last.0, last.1));
+        }
+    }
+}
+
+/// C04 (checksum clause): the text build() stores is the ','-joined listing `algorithm:hex` of entries in strictly ascending
+/// algorithm order, each with an even number of (lower-case) hex digits, and contains no ASCII upper-case letter
+pub proof fn theorem_checksum_text_shape(x: Seq<char>)
+    requires ck_parse(x) is Some, ck_text(ck_parse(x)->Some_0) is Some
+    ensures exists|es: VS| #![auto] es.len() > 0 && sorted_by_key(es) && all_hex_ok(es) && is_listing(es, ck_parse(x)->Some_0)
+        && ck_text(ck_parse(x)->Some_0)->Some_0 == listing_text(es) && no_ascii_upper(listing_text(es))
+{
+    let ps = split_spec(x, ',');
+    lemma_split_pieces_no_sep(x, ',');
+    lemma_split_nonempty(x, ',');
+    lemma_ck_fold_sorted_listing(ps);
+    let m = ck_parse(x)->Some_0;
+    let es = choose|es: VS| #![auto] is_listing(es, m) && sorted_by_key(es) && keys_fixed(es) && es.len() == ps.len();
+    assert(all_hex_ok(es)) by { reveal(is_listing); assert forall|i: int| 0 <= i < es.len() implies hex_ok(#[trigger] es[i].1) by { assert(m.contains_key(es[i].0)); } }
+    lemma_canon_listing(es, m);
+    lemma_listing_text_no_upper(es);
+}
